@@ -244,7 +244,8 @@ func (db *ContractDB) load(path string) error {
 				panic(fmt.Sprintf("%s:%d: iface supports only pure / pure nonnil", path, ln))
 			}
 			if strings.HasPrefix(what, "preserves ") {
-				db.ifacePreserves[strings.TrimSpace(nm)] = preservePrefixes(strings.TrimPrefix(what, "preserves "))
+				k := strings.TrimSpace(nm)
+				db.ifacePreserves[k] = append(db.ifacePreserves[k], preservePrefixes(strings.TrimPrefix(what, "preserves "))...)
 				break
 			}
 			db.pureIface[strings.TrimSpace(nm)] = true
@@ -433,13 +434,12 @@ func (db *ContractDB) recvOnlyType(fn *ssa.Function) types.Type {
 // ifacePreservesFor: the preserves declaration of an interface method ("pkg.Iface.Method" or "pkg.Iface.*").
 func (db *ContractDB) ifacePreservesFor(m *types.Func) []string {
 	key := ifaceMethodKey(m)
-	if pp, ok := db.ifacePreserves[key]; ok {
-		return pp
-	}
+	var pp []string
+	pp = append(pp, db.ifacePreserves[key]...)
 	if i := strings.LastIndex(key, "."); i > 0 {
-		return db.ifacePreserves[key[:i]+".*"]
+		pp = append(pp, db.ifacePreserves[key[:i]+".*"]...)
 	}
-	return nil
+	return pp
 }
 
 // isPureIface: the interface method is declared pure ("pkg.Iface.Method" or "pkg.Iface.*").
@@ -502,6 +502,7 @@ type (
 	EUnary  struct{ Op string; X Expr }
 	EBinary struct{ Op string; L, R Expr }
 	EForall struct{ Var string; Body Expr; Sort string }
+	EFloat  struct{ V float64 }
 	EExists struct{ Var string; Body Expr; Sort string; Witness Expr }
 	EOld    struct{ X Expr }
 )
@@ -523,6 +524,15 @@ func lex(s string) ([]tok, error) {
 			j := i
 			for j < len(s) && (unicode.IsDigit(rune(s[j])) || s[j] == 'x' || (s[j] >= 'a' && s[j] <= 'f') || (s[j] >= 'A' && s[j] <= 'F')) {
 				j++
+			}
+			if j+1 < len(s) && s[j] == '.' && unicode.IsDigit(rune(s[j+1])) && !strings.HasPrefix(s[i:j], "0x") {
+				j++
+				for j < len(s) && unicode.IsDigit(rune(s[j])) {
+					j++
+				}
+				ts = append(ts, tok{"fnum", s[i:j]})
+				i = j
+				continue
 			}
 			ts = append(ts, tok{"num", s[i:j]})
 			i = j
@@ -560,10 +570,15 @@ func lex(s string) ([]tok, error) {
 			i = j + 1
 		case c == '"':
 			j := i + 1
+			var sb strings.Builder
 			for j < len(s) && s[j] != '"' {
+				if s[j] == '\\' && j+1 < len(s) && (s[j+1] == '"' || s[j+1] == '\\') {
+					j++ // \" and \\ stand for the quote and the backslash
+				}
+				sb.WriteByte(s[j])
 				j++
 			}
-			ts = append(ts, tok{"str", s[i+1 : j]})
+			ts = append(ts, tok{"str", sb.String()})
 			i = j + 1
 		default:
 			for _, op := range []string{"==>", "&&", "||", "==", "!=", "<=", ">=", "<", ">", "+", "-", "*", "/", "%", "!", "(", ")", "[", "]", ".", ",", ":"} {
@@ -733,6 +748,12 @@ func (p *parser) primary() Expr {
 			panic(err)
 		}
 		return &ENum{v}
+	case "fnum":
+		f, err := strconv.ParseFloat(t.s, 64)
+		if err != nil {
+			panic(err)
+		}
+		return &EFloat{f}
 	case "str":
 		return &EStr{t.s}
 	case "ident":
